@@ -543,7 +543,14 @@ def run (T : Tables) (c : Cfg) : State → List Ev → State
 /-! ## the monitor: judges the IMPLEMENTATION's observations (state after each event, timer, packets sent,
        pool calls, whether an Ack's bytes equal the request's) -/
 
+/-- the states in which the automaton waits for the peer and relies on the restart timer to get out -/
+def waiting : St → Bool
+  | .Closing | .Stopping | .ReqSent | .AckRcvd | .AckSent => true
+  | _ => false
+
 structure Mon where
+  /-- the previous observation already showed a timer-driven state without a running timer -/
+  stuck : Bool := false
   lastCR : Option UInt8 := none
   our : Bool := false
   peer : Bool := false
@@ -574,6 +581,11 @@ structure MObs where
   ackBytesOk : Bool
   pool : List (Option (List Nat))
   out : List Pkt
+  /-- the observation reports the timer (false for the observer `isopened`) -/
+  timerKnown : Bool := true
+  /-- the operation is a packet whose handler calls stopTimer() before its state switch (read off the generated
+      table): the mechanism of finding KF-ncp-timer-stopped-early -/
+  handlerStops : Bool := false
 
 def isReplyCode (k : Nat) : Bool := k == cCA || k == cCN || k == cCJ || k == cTA || k == cER
 
@@ -593,7 +605,7 @@ def applyPoolObs (m : Mon) : List (Option (List Nat)) → Mon
   | none :: rest => applyPoolObs { m with assigned := none } rest
 
 /-- verdicts `(clause, detail)` for one observed step; `c` carries the static configuration -/
-def Mon.check (c : Cfg) (m : Mon) (e : MEv) (o : MObs) : Mon × List (String × String) :=
+def Mon.check (c : Cfg) (m : Mon) (e : MEv) (o : MObs) : Mon × List (String × String × String) :=
   let out := o.out
   let stNow := o.st
   let leaving : Bool := match e with
@@ -647,10 +659,19 @@ def Mon.check (c : Cfg) (m : Mon) (e : MEv) (o : MObs) : Mon × List (String × 
   let tx := (if reset then 0 else m.tx) + sent
   let bound := (if initRc c < 1 then 1 else initRc c).toNat
   let v5 := if tx > bound then [("no-termination", s!"{tx} transmissions without a word from the peer, configured {bound}")] else []
+  -- waiting for the peer in a timer-driven state although no timer runs: against a silent peer it never ends.
+  -- Attributed to the recorded finding only if a receive handler that stops the timer before its switch just ran,
+  -- or the automaton was already stuck before this operation.
+  let waitingNow := stNow == "Closing" || stNow == "Stopping" || stNow == "Req-Sent" || stNow == "Ack-Rcvd" || stNow == "Ack-Sent"
+  let stuckNow := o.timerKnown && waitingNow && !o.armed
+  let v7 := if stuckNow then
+      [("no-termination", (if o.handlerStops || m.stuck then "KF-ncp-timer-stopped-early" else "none"),
+        s!"waiting in {stNow} without a running restart timer")] else []
   let v6 := if o.armed && (stNow == "Initial" || stNow == "Starting" || stNow == "Closed" || stNow == "Stopped" || stNow == "Opened")
     then [("timer-armed", s!"restart timer armed in {stNow}")] else []
   let m2 := applyPoolObs m1 o.pool
-  ({ m2 with lastCR := lastCR, our := our2, peer := peer1, prev := stNow, tx := tx },
-   v1 ++ v2 ++ v3 ++ v4 ++ v4b ++ v4c ++ v5 ++ v6)
+  ({ m2 with lastCR := lastCR, our := our2, peer := peer1, prev := stNow, tx := tx,
+             stuck := if o.timerKnown then stuckNow else m.stuck },
+   ((v1 ++ v2 ++ v3 ++ v4 ++ v4b ++ v4c ++ v5 ++ v6).map fun (n, d) => (n, "none", d)) ++ v7)
 
 end Bng.Ncp
